@@ -41,8 +41,10 @@ import (
 	"github.com/metrico/qryn/writer/service"
 	"github.com/metrico/qryn/writer/service/impl"
 	"github.com/metrico/qryn/writer/service/registry"
+	"github.com/metrico/qryn/writer/utils/helpers"
 	"github.com/metrico/qryn/writer/utils/logger"
 	"github.com/metrico/qryn/writer/utils/numbercache"
+	"github.com/metrico/qryn/writer/utils/promise"
 )
 
 const c05ChildCmd = "c05-child"
@@ -74,6 +76,8 @@ type c05Ans struct {
 	Goroutines int            `json:"goroutines,omitempty"`
 	Baseline   int            `json:"baseline,omitempty"`
 	NonRect    []string       `json:"nonrect,omitempty"` // descriptions of non-rectangular blocks handed to the client since the last call
+	Ragged     []string       `json:"ragged,omitempty"`  // request objects with per-row arrays of different lengths handed to svc.Request since the last call
+	Requests   int            `json:"requests,omitempty"` // request objects inspected since the last call
 	Blocks     int            `json:"blocks,omitempty"`
 	Rows       map[string]int `json:"rows,omitempty"` // rows per table since the last call
 	ElapsedMs  int            `json:"elapsed_ms,omitempty"`
@@ -84,10 +88,85 @@ type c05Ans struct {
 
 // ---- fake ClickHouse client: captures the blocks the insert services hand to Do
 type c05Capture struct {
-	mtx     sync.Mutex
-	nonRect []string
-	blocks  int
-	rows    map[string]int
+	mtx      sync.Mutex
+	nonRect  []string
+	blocks   int
+	rows     map[string]int
+	ragged   []string
+	requests int
+}
+
+// c05CheckSvc sits between doPush and the real insert service: the oracle of `parser_rect_*` on what the real parsers
+// emit. Every request object handed to Request() is inspected — `len` of every per-row array field must be equal —
+// before it goes on to the real service unchanged.
+type c05CheckSvc struct {
+	service.IInsertServiceV2
+}
+
+func c05RaggedOf(req any) string {
+	lens := func(name string, pairs ...any) string {
+		first, equal := -1, true
+		parts := make([]string, 0, len(pairs)/2)
+		for i := 0; i+1 < len(pairs); i += 2 {
+			n := pairs[i+1].(int)
+			if first < 0 {
+				first = n
+			} else if n != first {
+				equal = false
+			}
+			parts = append(parts, fmt.Sprintf("%s=%d", pairs[i], n))
+		}
+		if equal {
+			return ""
+		}
+		return name + ": " + strings.Join(parts, " ")
+	}
+	switch x := req.(type) {
+	case *model.TimeSamplesData:
+		if x == nil {
+			return ""
+		}
+		return lens("TimeSamplesData", "MTimestampNS", len(x.MTimestampNS), "MFingerprint", len(x.MFingerprint), "MMessage", len(x.MMessage),
+			"MValue", len(x.MValue), "MTTLDays", len(x.MTTLDays), "MType", len(x.MType))
+	case *model.TimeSeriesData:
+		if x == nil {
+			return ""
+		}
+		return lens("TimeSeriesData", "MDate", len(x.MDate), "MLabels", len(x.MLabels), "MFingerprint", len(x.MFingerprint),
+			"MTTLDays", len(x.MTTLDays), "MType", len(x.MType))
+	case *model.TempoSamples:
+		if x == nil {
+			return ""
+		}
+		return lens("TempoSamples", "MTraceId", len(x.MTraceId), "MSpanId", len(x.MSpanId), "MTimestampNs", len(x.MTimestampNs),
+			"MDurationNs", len(x.MDurationNs), "MParentId", len(x.MParentId), "MName", len(x.MName), "MServiceName", len(x.MServiceName),
+			"MPayloadType", len(x.MPayloadType), "MPayload", len(x.MPayload))
+	case *model.TempoTag:
+		if x == nil {
+			return ""
+		}
+		return lens("TempoTag", "MTraceId", len(x.MTraceId), "MSpanId", len(x.MSpanId), "MTimestampNs", len(x.MTimestampNs),
+			"MDurationNs", len(x.MDurationNs), "MDate", len(x.MDate), "MKey", len(x.MKey), "MVal", len(x.MVal))
+	case *model.ProfileData:
+		if x == nil {
+			return ""
+		}
+		return lens("ProfileData", "TimestampNs", len(x.TimestampNs), "Ptype", len(x.Ptype), "ServiceName", len(x.ServiceName),
+			"PeriodType", len(x.PeriodType), "PeriodUnit", len(x.PeriodUnit), "DurationNs", len(x.DurationNs),
+			"PayloadType", len(x.PayloadType), "Payload", len(x.Payload))
+	}
+	return fmt.Sprintf("%T: a request type the oracle does not know", req)
+}
+
+func (c c05CheckSvc) Request(req helpers.SizeGetter, insertMode int) *promise.Promise[uint32] {
+	what := c05RaggedOf(req)
+	c05Cap.mtx.Lock()
+	c05Cap.requests++
+	if what != "" && len(c05Cap.ragged) < 32 {
+		c05Cap.ragged = append(c05Cap.ragged, what)
+	}
+	c05Cap.mtx.Unlock()
+	return c.IInsertServiceV2.Request(req, insertMode)
 }
 
 var c05Cap = &c05Capture{rows: map[string]int{}}
@@ -207,7 +286,7 @@ func c05Assemble() *httptest.Server {
 		svc := f(model.InsertServiceOpts{Session: session, Node: node, Interval: 5 * time.Millisecond, ParallelNum: 1, MaxQueueSize: 1})
 		svc.Init()
 		go svc.Run()
-		return map[string]service.IInsertServiceV2{"n1": svc}
+		return map[string]service.IInsertServiceV2{"n1": c05CheckSvc{svc}}
 	}
 	ts := mk(factory.NewTimeSeriesInsertService)
 	spl := mk(factory.NewSamplesInsertService)
@@ -297,7 +376,9 @@ func c05ChildMain() {
 			emit(c05Ans{ID: c.ID, Goroutines: n, Baseline: baseline})
 		case "blocks":
 			c05Cap.mtx.Lock()
-			a := c05Ans{ID: c.ID, NonRect: c05Cap.nonRect, Blocks: c05Cap.blocks, Rows: c05Cap.rows}
+			a := c05Ans{ID: c.ID, NonRect: c05Cap.nonRect, Blocks: c05Cap.blocks, Rows: c05Cap.rows, Ragged: c05Cap.ragged, Requests: c05Cap.requests}
+			c05Cap.ragged = nil
+			c05Cap.requests = 0
 			c05Cap.nonRect = nil
 			c05Cap.blocks = 0
 			c05Cap.rows = map[string]int{}
